@@ -328,3 +328,22 @@ def translation_candidate(H):
             want = q + (dx if i in xs else dy if i in ys else 0)
             parts.append(abs(p - want) <= tol)
         H.prove(And(*parts), "translation.absolute_coordinates_shifted")
+
+
+@obligation(P, "reuse.drift_bound", functions=[])
+def drift_bound(H):
+    """Lemma connecting what the code verifies to what a font builder sees: the candidate is accepted on the RELATIVE form
+    of both outlines (every relative command within tol, reuse.guard + reuse.almost_equals), so the absolute end point of
+    command k of the image lies within |start difference| + k * tol of the other outline's - induction step here, base
+    case k = 0 is the moveto itself.  The bound is tight (recorded finding F21: drift beyond tol is possible)."""
+    tol, k = H.real("tol"), H.int("k")
+    ex, ey = H.real("ex"), H.real("ey")  # accumulated difference of the current points after k commands
+    dx, dy = H.real("dx"), H.real("dy")  # difference of the (k+1)-th relative end point arguments
+    s = H.real("s")  # difference of the two start points (absolute moveto arguments)
+    H.assume(And(tol >= 0, k >= 0, s >= 0))
+    H.assume(And(ex <= s + k * tol, -ex <= s + k * tol, ey <= s + k * tol, -ey <= s + k * tol))
+    H.assume(And(dx <= tol, -dx <= tol, dy <= tol, -dy <= tol))
+    nx, ny = ex + dx, ey + dy
+    H.prove(And(nx <= s + (k + 1) * tol, -nx <= s + (k + 1) * tol, ny <= s + (k + 1) * tol, -ny <= s + (k + 1) * tol), "drift.absolute_difference_grows_by_at_most_tol_per_command")
+    # and the canary: the stronger statement (no growth) is NOT provable - guards the lemma against vacuity
+    H.canary(And(nx <= s + k * tol, -nx <= s + k * tol), "drift.canary_no_growth_is_refutable")
